@@ -1,10 +1,10 @@
-\* exhaustive configuration of the quick tier (checks/C19.py generates the same with N = 5 for the thorough tier)
+\* the depth family: one generated compression chain per depth (open and closed into a loop), both tiers
 SPECIFICATION Spec
 CONSTANTS
-  Family = "all"
-  N = 4
-  Cuts = {0, 1}
-  Depths = {}
+  Family = "chain"
+  N = 0
+  Cuts = {0}
+  Depths = {1, 2, 9, 10, 11, 12, 63, 126}
   NameLimit = 254
   Dev_NoVisited = FALSE
   Dev_PtrBoundOffByOne = FALSE
